@@ -50,14 +50,14 @@ Proof.
   assert (Hw' : forallb (not_c LBRACK) word = true) by (eapply forallb_impl; [|exact Hw]; auto).
   destruct sfx as [|c sfx].
   - rewrite app_nil_r. now rewrite span_all.
-  - subst c. rewrite span_app_stop; auto. unfold not_c. now rewrite N.eqb_refl.
+  - subst c. rewrite span_app_stop; auto; unfold not_c; now rewrite N.eqb_refl.
 Qed.
 
 Lemma arr_suffix_head c : match arr_suffix c with x :: _ => x = LBRACK | [] => True end.
 Proof. destruct (arr_suffix_cases c) as [[_ ->]|[l [_ [_ ->]]]]; simpl; auto. Qed.
 
 Lemma upper_no_lower s : existsb is_lower (upper s) = false.
-Proof. induction s as [|c s IH]; [reflexivity|]. cbn [upper map existsb]. rewrite upc_not_lower. exact IH. Qed.
+Proof. induction s as [|c s IH]; [reflexivity|]. change (upper (c :: s)) with (upc c :: upper s). cbn [existsb]. rewrite upc_not_lower. exact IH. Qed.
 
 Lemma upper_neq_kw s kw : existsb is_lower kw = true -> beq (upper s) kw = false.
 Proof.
@@ -66,7 +66,8 @@ Qed.
 
 Lemma upper_mem_lower d s : is_lower d = true -> mem d (upper s) = false.
 Proof.
-  intros Hd. induction s as [|c s IH]; [reflexivity|]. unfold mem in *. cbn [upper map existsb]. rewrite IH, orb_false_r.
+  intros Hd. induction s as [|c s IH]; [reflexivity|]. change (upper (c :: s)) with (upc c :: upper s).
+  unfold mem in *. cbn [existsb]. rewrite IH, orb_false_r.
   apply N.eqb_neq. intros ->. rewrite upc_not_lower in Hd. discriminate.
 Qed.
 
@@ -118,10 +119,14 @@ Qed.
 Lemma span_digits_brack n rest : span is_digit (show_N n ++ RBRACK :: rest) = (show_N n, RBRACK :: rest).
 Proof. apply span_app_stop; [apply show_N_digits|reflexivity]. Qed.
 
+Lemma search_cons x s : search_char_arr (x :: s) = match_char_arr (x :: s) || search_char_arr s.
+Proof. reflexivity. Qed.
+
 Lemma isarray_char c w : isarray (S_CHAR ++ arr_suffix c ++ brack w) = is_arr c.
 Proof.
   unfold isarray. destruct (arr_suffix_cases c) as [[-> ->]|[l [_ [-> ->]]]].
-  - cbn [app]. unfold S_CHAR. cbn [app search_char_arr].
+  - change (S_CHAR ++ [] ++ brack w) with (99 :: 104 :: 97 :: 114 :: brack w).
+    rewrite search_cons.
     assert (M : match_char_arr (99 :: 104 :: 97 :: 114 :: brack w) = false).
     { unfold match_char_arr, KW_CHAR. cbn [prefix N.eqb Pos.eqb]. unfold brack.
       change (is_open LBRACK) with true. cbv iota. rewrite span_digits_brack. reflexivity. }
@@ -133,7 +138,8 @@ Proof.
     assert (C : contains KW_CHAR (99 :: 104 :: 97 :: 114 :: brack w) = true).
     { cbn [contains]. unfold starts_with, KW_CHAR. cbn [prefix N.eqb Pos.eqb]. reflexivity. }
     rewrite C. reflexivity.
-  - unfold S_CHAR. cbn [app search_char_arr].
+  - change (S_CHAR ++ brack l ++ brack w) with (99 :: 104 :: 97 :: 114 :: brack l ++ brack w).
+    rewrite search_cons.
     assert (M : match_char_arr (99 :: 104 :: 97 :: 114 :: brack l ++ brack w) = true).
     { unfold match_char_arr, KW_CHAR. cbn [prefix N.eqb Pos.eqb]. unfold brack. cbn [app].
       change (is_open LBRACK) with true. cbv iota. rewrite <- app_assoc. cbn [app]. rewrite span_digits_brack. cbn [snd].
